@@ -34,6 +34,14 @@ ALPHA = "\t\t\t\n: *$+-,;01259HSLCPEFGOUX#MIDNacgtxyZzABJf[]{}\"'.=_\r\x00\x7fé
 COLLECT = bool(os.environ.get("VERIF_C07_COLLECT"))
 
 
+GROUP_EDIT_FUNCS = {"_add_item_to_connected_group", "_add_item_to_unconnected_group", "_rm_item_from_unconnected_group",
+                    "rm_first_item", "rm_last_item", "append_item", "prepend_item"}
+
+
+MISSING_HELPERS = ("'prepare_and_check_ref'", "'update_reference'", "'compute_induced_set'",
+                   "'list' object has no attribute 'delete'", "'str' object has no attribute 'line'")
+
+
 def leak_signature(e):
     tb = traceback.extract_tb(e.__traceback__)
     where = "?"
@@ -41,6 +49,11 @@ def leak_signature(e):
         if os.sep + "gfapy" + os.sep in f.filename:
             where = "%s:%s" % (os.path.basename(f.filename), f.name)
             break
+    if isinstance(e, AttributeError) and any(m in str(e) for m in MISSING_HELPERS) and any(
+            f.name in GROUP_EDIT_FUNCS and os.sep + os.path.join("line", "group") + os.sep in f.filename for f in tb):
+        # known finding D87: the item-editing methods of U/O lines call helpers that do not
+        # exist (one root cause, several call sites)
+        where = "group_item_editing"
     return "%s@%s" % (type(e).__name__, where)
 
 
@@ -90,7 +103,9 @@ class Guard:
                 for sig, _w, _e in self.leaks:
                     labels["leak:" + sig] = True
                 return labels
-            sig, what, e = self.leaks[0]
+            # a leak of the known root cause D87 never hides another one of the same case
+            other = [x for x in self.leaks if not x[0].endswith("@group_item_editing")]
+            sig, what, e = (other or self.leaks)[0]
             tb = "".join(traceback.format_exception(type(e), e, e.__traceback__)[-6:])
             raise Violation("leak", "%s\ncall: %s\nforeign exception %s: %s\n%s" % (
                 self.ctx, what, type(e).__name__, str(e)[:300], tb[-1500:]), sig)
@@ -442,12 +457,19 @@ def st_api_case(draw):
                 fn = gen.choice(r, FIELDS)
             if gen.chance(r, 0.08):
                 meth = "disconnect"
+            elif version == "gfa2" and gen.chance(r, 0.06):
+                # the documented item-editing methods of groups (identifier strings)
+                rt = gen.choice(r, "OU")
+                meth = gen.choice(r, ["add_item", "rm_item"] if rt == "U" else ["append_item", "prepend_item", "rm_first_item", "rm_last_item"])
+                fn = None
             if meth == "set":
                 args = [fn, gen.choice(r, VALUES2 if rt and gen.chance(r, 0.6) else VALUES)]
             elif meth == "set_datatype":
                 args = [fn, gen.choice(r, TYPES)]
-            elif meth == "disconnect":
+            elif meth == "disconnect" or meth.startswith("rm_") and meth.endswith("_item") and meth != "rm_item":
                 args = []
+            elif meth.endswith("_item"):
+                args = [gen.choice(r, ["A", "B", "e1", "g1", "o1", "u1", "nope", "A+", "e1-", ""])]
             else:
                 args = [fn]
             ops.append(["line_rt", r.randrange(20), meth, args, rt] if rt else ["line", r.randrange(20), meth, args])
